@@ -230,12 +230,14 @@ def run(ctx):
     mc = open(os.path.join(CFG, 'Session.c15.mc.cfg')).read()
     if quick:
         mc = mc.replace('MaxLen = 4', 'MaxLen = 3')
-    ctx.tlc('Session.c15.mc', 'Session', mc, coverage=False, timeout=600)
+    r = ctx.tlc('Session.c15.mc', 'Session', mc, coverage=True, timeout=600)
+    ctx.extra['design_action_coverage'] = SJ.require_coverage(r, ['Sample', 'SampleRaises', 'SetSeed', 'GlobalSeed', 'GlobalDraw', 'Fit'])
     dev = ctx.tlc('Session.c15.dev', 'Session', mc.replace('DevSeedIgnored = FALSE', 'DevSeedIgnored = TRUE')
                   .replace('MaxLen = 4', 'MaxLen = 3'), must_hold=False, timeout=600)
     if not ({'GlobalIsolation', 'SeededSampleKeepsGlobal'} & set(dev.violated)):
         raise RuntimeError('non-vacuity: deviation DevSeedIgnored not refuted by TLC: %s' % dev.violated)
-    ctx.tlc('RandomStateMech.mc', 'RandomStateMech', os.path.join(CFG, 'RandomStateMech.mc.cfg'), timeout=600)
+    r = ctx.tlc('RandomStateMech.mc', 'RandomStateMech', os.path.join(CFG, 'RandomStateMech.mc.cfg'), timeout=600, coverage=True)
+    ctx.extra['mechanism_action_coverage'] = SJ.require_coverage(r, ['Enter', 'EnterScratch', 'Draw', 'Raise', 'Exit', 'UserDraw'])
     nf = ctx.tlc('RandomStateMech.nofinally', 'RandomStateMech', os.path.join(CFG, 'RandomStateMech.nofinally.cfg'),
                  must_hold=False, timeout=600)
     if not nf.violated:
